@@ -3,7 +3,7 @@
 # the project's test suite passes with the change, the demonstration fails with it and passes without it.
 id=$1; base=${SEEDBASE:-/tmp/seed}; wt=$base/$id; seed=$wt/SEED
 export GOFLAGS= GOPROXY=off GOSUMDB=off GOTOOLCHAIN=local
-git -C $wt checkout -q -- . ; git -C $wt clean -fdq -e SEED -e PROPERTY.json -e '*.diff' . 2>/dev/null
+git -C $wt reset -q; git -C $wt checkout -q -- . ; git -C $wt clean -fdq -e SEED -e PROPERTY.json -e '*.diff' . 2>/dev/null
 git -C $wt apply $seed/patch.diff || { echo "PATCH DOES NOT APPLY"; exit 1; }
 # hide the SEED dir from the root module while running the suite
 mv $seed $base/.$id.SEED
